@@ -260,9 +260,10 @@ PROPS["C16"] = dict(
           "hang is reported only if two goroutine dumps one second apart show the call blocked in the same stack with a go-libipni frame. Direct "
           "and Next, which may legitimately wait, get a context that is cancelled after a grace period. interleavings: 2..4 goroutines with seeded "
           "scripts racing Close with the other calls, then calls after the Close completed must return the closed error; pubsub-shutdown: "
-          "receiver on a real libp2p host + gossip topic, 1..3 concurrent closers, watcher goroutine must be gone. distinct_nontrivial = "
+          "receiver on a real libp2p host + gossip topic, 1..3 concurrent closers, watcher goroutine must be gone; host-without-topic: a "
+          "receiver created with a libp2p host and no topic runs seeded call sequences around a Close. distinct_nontrivial = "
           "distinct sequences / script sets."),
-    floors={"quick": {"sequences_with_repeated_close": 50, "concurrent_runs": 250, "pubsub_shutdowns": 4, "gossip_announcements_handled_before_close": 8}},
+    floors={"quick": {"sequences_with_repeated_close": 50, "concurrent_runs": 250, "pubsub_shutdowns": 4, "gossip_announcements_handled_before_close": 8, "host_without_topic_runs": 10}},
     watchdog_s={"quick": 900, "thorough": 7200},
     gomaxprocs=4,
     level_text=("Exploration (sequential part exhaustive to the stated length): every call is observed to return; hangs are decided "
@@ -401,10 +402,12 @@ PROPS["C08"] = dict(
           "watcher, spawned == entered == exited handling goroutines, no open request. Offline: sync.enter/exit never nest per publisher; "
           "async.sem..async.exit occupancy <= maximum; every hook call lies inside exactly one sync of its publisher, in chain order; every "
           "advertisement after the baseline is reported exactly once; no block requested twice; latest-synced == last announced head or an error "
-          "notification. distinct_nontrivial = run configurations x (coalescing seen, spawn-while-running seen); distinct interleaving "
+          "notification naming that head. Half of the announce-only runs answer a share of first block requests with 500, so announce-triggered "
+          "syncs fail while other publishers wait for a slot; the number of announce-triggered syncs between sync.enter and sync.exit is bounded "
+          "by the maximum as well; the pending announcement is never taken while another sync of that publisher is between enter and exit. distinct_nontrivial = run configurations x (coalescing seen, spawn-while-running seen); distinct interleaving "
           "signatures are counted separately."),
-    floors={"quick": {"coalesced_announcements": 100, "spawn_while_previous_sync_running": 20, "syncs_observed": 300, "runs_reaching_the_concurrency_limit": 3, "runs_with_last_known_baseline": 10, "explicit_syncs_with_expiring_context": 20}},
-    max_counters=["max_concurrent_announce_syncs"],
+    floors={"quick": {"coalesced_announcements": 100, "spawn_while_previous_sync_running": 20, "syncs_observed": 300, "runs_reaching_the_concurrency_limit": 3, "runs_with_last_known_baseline": 10, "explicit_syncs_with_expiring_context": 10, "runs_with_failing_syncs": 15, "failed_announce_syncs": 50}},
+    max_counters=["max_concurrent_announce_syncs", "max_announce_syncs_between_start_and_end"],
     watchdog_s={"quick": 900, "thorough": 7200},
     level_text=("Exploration over schedules: many short seeded runs with injected delays; every run's full event log is checked offline for mutual "
                 "exclusion per publisher, the concurrency bound, exactly-once reporting and no lost announcement at a logically detected quiescent point."),
@@ -426,8 +429,13 @@ PROPS["C14"] = dict(
           "event whose emission began after registration returned and that was forwarded before cancel was called; may receive those racing "
           "with registration/cancellation; nothing twice, nothing never emitted, per publisher in emission order, Count equals the hook calls of "
           "that sync; channel closed after the backlog. All sync workers must finish while stalled listeners are not reading (hang rule). "
+          "In a third of the runs a second goroutine syncs the same publishers explicitly at the same time; in half, one sync is held (gate at "
+          "the emission tap) while a second sync of the same publisher for a newer head is started, so any notification sent out of completion "
+          "order reaches the fast listener out of order. Failing announce syncs are held at the publisher so that newer announcements queue "
+          "behind them; every handling goroutine that ran a sync must have sent exactly one notification, and explicit syncs that ran and "
+          "returned success must equal the notifications sent from explicit-sync goroutines. "
           "distinct_nontrivial = distinct run configurations."),
-    floors={"quick": {"must_deliveries_checked": 600, "emitted_events": 500, "long_runs_with_stalled_listener": 5, "listener_stalled": 10, "listener_cancel-then-read": 10, "listener_cancel-after-n": 10}},
+    floors={"quick": {"must_deliveries_checked": 600, "emitted_events": 500, "long_runs_with_stalled_listener": 5, "listener_stalled": 10, "listener_cancel-then-read": 10, "listener_cancel-after-n": 10, "announce_triggered_syncs_checked": 200, "held_notification_overlap_runs": 12, "explicit_syncs_completed": 300}},
     watchdog_s={"quick": 900, "thorough": 7200},
     level_text=("Exploration over schedules: each run's listeners are compared with the emission log; delivery obligations are derived from logical "
                 "timestamps so that only what the statement promises is demanded."),
